@@ -102,6 +102,12 @@ class SimBus(EventBus):
             except Exception:
                 pass
 
+    async def _run_loop(self):
+        try:
+            await super()._run_loop()
+        finally:
+            self._w.rec('runloop_exit', self.name)
+
     def dispatch(self, event):
         w = self._w
         actor = w.cur_actor
@@ -281,6 +287,9 @@ async def run_prog(w: World, prog, actor: str, depth: int, in_handler: bool, sid
             exc = EXC[op[1]](f'{op[1]} from {actor}')
             w.raised[actor] = exc
             raise exc
+        elif o == 'raise_cancelled':
+            w.rec('raise_cancelled', actor)
+            raise asyncio.CancelledError()
         elif o == 'return_exc':
             exc = EXC[op[1]](f'{op[1]} returned by {actor}')
             w.raised[actor] = exc
@@ -807,6 +816,7 @@ def run_scenario(sc: dict, watch_factory=None, keep_world=False):
 
         res['end'] = 'harness:' + repr(e)[:200]
         res['tb'] = traceback.format_exc()
+    w.rec('teardown')  # everything recorded after this point is clean-up, not part of the run
     try:
         snap = _final_snapshot(w)
         w.final.update(snap)
@@ -853,7 +863,7 @@ def trace_digest(w: World, res: dict) -> str:
     h = hashlib.sha256()
     for r in w.recs:
         h.update(repr(r).encode())
-        if r[2] == 'cut':
+        if r[2] in ('cut', 'teardown'):
             break  # what follows is teardown (task cancellation order is not part of the run)
     h.update(repr(sorted((k, repr(v)) for k, v in w.final.get('events', {}).items())).encode())
     h.update(str(res.get('end')).encode())
@@ -867,7 +877,7 @@ def abstract_trace(w: World) -> str:
     acts = w.act_info
     for r in w.recs:
         k = r[2]
-        if k == 'cut':
+        if k in ('cut', 'teardown'):
             break
         if k == 'enter':
             h.update(f'E{r[3]}{sid.get(r[4])}{r[5]}|'.encode())
